@@ -89,6 +89,8 @@ mod multistream_select;
 #[cfg(feature = "verif")]
 pub mod multistream_select;
 pub mod utils;
+#[cfg(feature = "verif")]
+pub mod verif_clock;
 
 #[cfg(test)]
 mod mock;
